@@ -11,7 +11,7 @@
    (C17_simulation_strict), and for the six operations of Sign the strict and the plain direct
    run succeed together and always leave the signs in the same state. *)
 From Flipdot Require Import Tactics Base Hex Frame Message SignType Page VSign Controller Io Serial.
-From Flipdot Require Import FrameP MessageP IoP VSignP WireP.
+From Flipdot Require Import FrameP MessageP IoP VSignP WireP WireSchedP.
 Local Open Scope N_scope.
 
 (* ---------------------------------------------------------------------------------------- *)
@@ -419,3 +419,45 @@ Theorem C17_wire_is_serial_plus_bridge :
         w_out (pt_out p') = encode_nl (frame_of_msg m)).
 Proof. exact WireP.C17_wire_is_serial_plus_bridge. Qed.
 Print Assumptions C17_wire_is_serial_plus_bridge.
+
+(* ---------------------------------------------------------------------------------------- *)
+(* Transparency does not depend on how the byte streams behave, as long as they do not fail: every use
+   of a stream (the controller's write, the bridge's read, the bridge's write of the reply, the
+   controller's read of the reply) may fragment into arbitrary pieces and report Interrupted arbitrarily
+   often.  [wire_step_s] / [run_wire_s] (model/Serial.v) take one schedule of such behaviours per stream
+   use and per bus call. *)
+
+Theorem C17_def_clean : forall s,
+  clean s <->
+  (forall ev, In ev (ws_cw s) -> ev <> WFail /\ ev <> WZero) /\ ~ In RFail (ws_br s)
+  /\ (forall ev, In ev (ws_bw s) -> ev <> WFail /\ ev <> WZero) /\ ~ In RFail (ws_cr s).
+Proof. intros s. reflexivity. Qed.
+Print Assumptions C17_def_clean.
+
+Theorem C17_wire_step_any_fragmentation : forall w m s,
+  clean s -> wire_step_s w m s = wire_step w m.
+Proof. exact wire_step_sched_indep. Qed.
+Print Assumptions C17_wire_step_any_fragmentation.
+
+Theorem C17_run_wire_any_fragmentation : forall A (p : prog A) w ss,
+  Forall clean ss -> run_wire_s p w ss = run_wire p w.
+Proof. exact run_wire_sched_indep. Qed.
+Print Assumptions C17_run_wire_any_fragmentation.
+
+Theorem C17_simulation_fragmented : forall A (p : prog A) b ss,
+  wf_prog p -> Forall (fun s => v_addr s < 65536) b -> Forall clean ss ->
+  run_wire_s p {| wr_bus := b; wr_inbox := [] |} ss
+  = Some (let (b', o) := run_bus_strict p b in ({| wr_bus := b'; wr_inbox := [] |}, o)).
+Proof. exact simulation_fragmented. Qed.
+Print Assumptions C17_simulation_fragmented.
+
+(* Evaluated: the session of the first example over streams that deliver one byte at a time with an
+   interrupt before every other byte ends exactly as over the plain wire. *)
+Example C17_ex_fragmented :
+  let one := {| ws_cw := [WAccept 0; WIntr; WAccept 2; WIntr; WAccept 0];
+                ws_br := [RData 0; RIntr; RData 0; RIntr; RIntr; RData 1];
+                ws_bw := [WIntr; WAccept 0; WAccept 0; WIntr];
+                ws_cr := [RIntr; RData 0; RData 0; RIntr; RData 3] |} in
+  run_wire_s session {| wr_bus := sign3; wr_inbox := [] |} (repeat one 40)
+  = run_wire session {| wr_bus := sign3; wr_inbox := [] |}.
+Proof. vm_compute. reflexivity. Qed.
